@@ -37,7 +37,16 @@ fn truthful(mt: u8, ek: &EK, t: &Truth) -> bool {
             _ => false,
         };
     }
-    if t.hdr_bad || t.ty != Some(mt) {
+    if t.hdr_bad {
+        // the error names the type the packet's own type field claims
+        return t.claimed_ty == Some(mt)
+            && match ek {
+                EK::Unknown | EK::CtlUnknown => true,
+                EK::InvalidPec => t.pec_bad,
+                _ => false,
+            };
+    }
+    if t.ty != Some(mt) {
         return false;
     }
     match ek {
